@@ -38,7 +38,9 @@ class ModInfo:
         self.own = own
         gaps = list(parent.gaps) if parent else []
         for it in spec_['items']:
-            if it['k'] == 'ignore' or it.get('ignore'):
+            if it.get('gap_pattern'):
+                gaps += spec.IGNORE_SAMPLES.get(it['gap_pattern'], [])
+            elif (it['k'] == 'ignore' or it.get('ignore') or it.get('ignore_override')) and it['expr'][0] == 're':
                 gaps += spec.IGNORE_SAMPLES.get(it['expr'][1], [])
         self.gaps = gaps
         first = [it for it in spec_['items'] if it['k'] in ('rule', 'class')]
@@ -52,7 +54,7 @@ class ModInfo:
         self.texts = []
 
     def plan_entry(self):
-        rules = sorted(n for n, it in self.rules.items() if not it.get('params') and not it.get('ignore'))
+        rules = sorted(n for n, it in self.rules.items() if not it.get('params'))
         return {'id': self.id, 'name': self.name, 'extends': self.extends, 'desc': self.desc, 'rules': rules}
 
 
@@ -60,8 +62,14 @@ def gen_universe(r):
     infos = []
     n_extra = r.choice([0, 0, 1, 1, 2])
     named0 = r.random() < 0.75
-    s0, g0 = spec.gen_root(r, named0)
-    m0 = ModInfo(0, U.PREFIX + 'g0' if named0 else None, None, s0, g0)
+    if r.random() < 0.2:
+        # the feature-rich fixed grammar: clients of one run meet in the same runtime helpers
+        s0, g0, fixed = spec.tour_root(r, named0)
+        m0 = ModInfo(0, U.PREFIX + 'g0' if named0 else None, None, s0, g0)
+        m0.fixed_texts = fixed
+    else:
+        s0, g0 = spec.gen_root(r, named0)
+        m0 = ModInfo(0, U.PREFIX + 'g0' if named0 else None, None, s0, g0)
     infos.append(m0)
     if named0 and r.random() < 0.55:
         s1, g1 = spec.gen_child(r, g0, ignore=r.choice([None, None, None, 'named']))
@@ -91,6 +99,30 @@ def gen_universe(r):
             continue
         good.append(m)
     return good
+
+
+def entry_text(r, m, it):
+    """A derivation from one rule of the module (for calls through that rule's own entry point)."""
+    sm = spec.Sampler(r, m.rules, m.super_rules)
+    sm.budget = 600
+    sm.maxdepth = r.choice([2, 3, 4])
+    t = spec.join_tokens(r, sm.item(it, 0), m.gaps)[:60]
+    if r.random() < 0.3:
+        t = spec.mutate_text(r, t, m.alphabet)
+    return t
+
+
+def warm_hot_lines(infos):
+    """In the group process: the shared-state lines of the universe's generated code (cached per code
+    object and inherited by the forked run children)."""
+    for m in infos:
+        try:
+            with U.isolated_registry():
+                for mod in U.build_chain_fast(m.chain):
+                    for c in U.generated_codes(mod):
+                        mon.hot_lines(c, vars(mod))
+        except Exception:
+            pass
 
 
 def make_texts(r, m, n=3, accept=None):
@@ -174,6 +206,8 @@ class Planner:
         if m.own and wr.random() < 0.3:
             it = wr.choice(m.own)
             entry = ('class:' if it['k'] == 'class' else 'rule:') + it['name']
+            if wr.random() < 0.6:
+                text = entry_text(wr, m, it)
         pos = 0
         if text and wr.random() < 0.2:
             pos = wr.randrange(0, min(len(text), 6))
@@ -368,10 +402,14 @@ class Planner:
                 pol = {'kind': 'op-interleave'}
             elif x < 0.55:
                 pol = {'kind': 'bernoulli', 'p': sr.choice([1e-3, 1e-2, 1e-2, 1e-1])}
-            elif x < 0.75:
+            elif x < 0.65:
                 pol = {'kind': 'pct', 'd': sr.choice([1, 2, 3]), 'expected': expected}
+            elif x < 0.75:
+                pol = {'kind': 'first-visit', 'q': sr.choice([0.05, 0.2, 0.5])}
+            elif x < 0.87:
+                pol = {'kind': 'one-shot', 'j': sr.randint(1, 60)}
             else:
-                pol = {'kind': 'targeted', 'q': sr.choice([0.02, 0.1, 0.3])}
+                pol = {'kind': 'targeted', 'q': sr.choice([0.1, 0.3, 0.6])}
         pol['seed'] = rngm.derive('policy', self.seed)
         watch_lib = any(op['op'] == 'compile' for ops in clients for op in ops)
         return {
@@ -401,6 +439,10 @@ def make_policy(pol, schedule=None):
         return mon.PCT(r, pol['d'], pol['expected'])
     if k == 'targeted':
         return mon.Targeted(r, pol['q'])
+    if k == 'first-visit':
+        return mon.FirstVisit(r, pol['q'])
+    if k == 'one-shot':
+        return mon.OneShot(r, pol['j'])
     raise ValueError(k)
 
 
@@ -476,12 +518,21 @@ def simulate(plan, schedule=None, wall_timeout=120.0, attach=None):
         env.policy = policy
         if attach is not None:
             attach(env)
+        for h in env.handles.values():
+            if h.ok:
+                for c in U.generated_codes(h.module):
+                    sim.hot |= mon.hot_lines(c, vars(h.module))
         records = [[] for _ in plan['clients']]
         for ci, ops in enumerate(plan['clients']):
             sim.spawn(lambda t, ops=ops, ci=ci: _client_body(env, t, ops, records[ci]))
         lib = plan.get('watch_library')
         if lib:
             mon.watch(mon.library_codes())
+            import sys as _sys
+            for mname in [n for n in list(_sys.modules) if n == 'sourcer' or n.startswith('sourcer.') or n == 'outsourcer']:
+                m = _sys.modules[mname]
+                for c in mon.codes_of_module(m):
+                    sim.hot |= mon.hot_lines(c, vars(m))
         try:
             sim.run(wall_timeout)
         finally:
@@ -503,8 +554,12 @@ def simulate(plan, schedule=None, wall_timeout=120.0, attach=None):
         result['switches'] = sum(1 for s in sim.switches if s[1] != -1)
         if result['switches']:
             env.count('preempt', result['switches'])
+        if sim.hot_hits:
+            env.count('shared_state_lines_visited_under_targeted_policy', sim.hot_hits)
         result['env'] = env
         result['sig'] = rngm.digest([list(x) for x in sim.sig])
+        from simkit.fp import norm_text
+        result['pairs'] = sorted({(norm_text(a), norm_text(b)) for a, b in sim.pairs})
         result['log_digest'] = rngm.digest([_norm_log(sim.log), _outs(records), _outs([probe_records])])
     except mon.HarnessError as e:
         result['harness'] = repr(e)
